@@ -184,8 +184,67 @@ func decodeKind(kind string, c elliptic.Curve, data []byte) (interface{}, error)
 	panic("unknown kind " + kind)
 }
 
-// safeDecode calls the decoder and converts a panic into (sig, description).
+// exactCopy returns a copy of b whose capacity equals its length: what a
+// decoder gets from a caller that read exactly len(b) bytes from a file or a
+// network frame.  A re-slice of a longer buffer (enc[:k]) keeps the capacity of
+// the buffer, so that an unguarded data[i:j] beyond len(data) reads stale bytes
+// instead of failing; the fresh allocation has nothing behind its end.
+func exactCopy(b []byte) []byte {
+	c := make([]byte, len(b))
+	copy(c, b)
+	return c
+}
+
+// sliceForms returns the forms in which the bytes are handed to a decoder: an
+// exact-capacity copy (for no bytes: nil and an empty non-nil slice) and, if
+// the caller's slice has spare capacity, that slice as it is.
+func sliceForms(data []byte) (forms [][]byte, names []string) {
+	if len(data) == 0 {
+		forms = append(forms, nil, make([]byte, 0))
+		names = append(names, "nil slice", "empty non-nil slice")
+	} else {
+		forms = append(forms, exactCopy(data))
+		names = append(names, fmt.Sprintf("%d bytes in a slice of capacity %d", len(data), len(data)))
+	}
+	if cap(data) > len(data) {
+		forms = append(forms, data)
+		names = append(names, fmt.Sprintf("%d bytes at the start of a buffer of capacity %d", len(data), cap(data)))
+	}
+	return
+}
+
+// safeDecode calls the decoder on every slice form of the bytes and converts a
+// panic into (sig, description).  The verdict of a decoder is a function of
+// the bytes: accepting one form and refusing another is reported the same way
+// (sig decode/<kind>/verdict-depends-on-capacity).  The returned value and
+// error are those of the first form (the exact-capacity copy).
 func safeDecode(kind string, c elliptic.Curve, data []byte) (v interface{}, err error, panicSig, panicMsg string) {
+	forms, names := sliceForms(data)
+	for i, form := range forms {
+		fv, ferr, psig, pmsg := safeDecode1(kind, c, form)
+		if psig != "" {
+			return nil, nil, psig, fmt.Sprintf("input: %s\n%s", names[i], pmsg)
+		}
+		if i == 0 {
+			v, err = fv, ferr
+			if err == nil && len(data) > 1<<16 {
+				// A large accepted input (a complete Round3 message): the
+				// second decode would double the cost of the mutation and
+				// fuzz units for nothing, the decoder had all it asked for.
+				break
+			}
+			continue
+		}
+		if (ferr == nil) != (err == nil) {
+			return nil, nil, "decode/" + kind + "/verdict-depends-on-capacity", fmt.Sprintf(
+				"the same %d bytes: as %s the decoder returns error %v, as %s it returns error %v",
+				len(data), names[0], err, names[i], ferr)
+		}
+	}
+	return
+}
+
+func safeDecode1(kind string, c elliptic.Curve, data []byte) (v interface{}, err error, panicSig, panicMsg string) {
 	defer func() {
 		if r := recover(); r != nil {
 			panicSig = "panic/decode-" + kind + "/" + ev.PanicSite()
